@@ -70,6 +70,13 @@ C03_RichInsert(RB, RA, i, new) ==
      /\ SubSeq(RA, 1, i) = SubSeq(RB, 1, i)
      /\ SubSeq(RA, i + k + 1, Len(RA)) = SubSeq(RB, i + 1, Len(RB))
      /\ \A j \in (i + 1)..(i + k) : RA[j][1] \in new /\ RA[j][2] = inherited
+(* insert_with_attributes: the new units carry EXACTLY the given attribute (nothing inherited), the rest is unchanged *)
+C03_RichInsertWith(RB, RA, i, new, key, v) ==
+  LET k == Len(RA) - Len(RB)
+  IN /\ k > 0 /\ i <= Len(RB)
+     /\ SubSeq(RA, 1, i) = SubSeq(RB, 1, i)
+     /\ SubSeq(RA, i + k + 1, Len(RA)) = SubSeq(RB, i + 1, Len(RB))
+     /\ \A j \in (i + 1)..(i + k) : RA[j][1] \in new /\ RA[j][2] = SetAttr({}, key, FmtValue(v))
 C03_RichDelete(RB, RA, i, n) ==
   /\ i + n <= Len(RB)
   /\ RA = SubSeq(RB, 1, i) \o SubSeq(RB, i + n + 1, Len(RB))
